@@ -144,6 +144,7 @@ fn enum_bytes(shard: usize, _n: usize, _t: Tier, emit: &mut dyn FnMut(&[u8]) -> 
 macro_rules! layout {
     ($out:ident, $t:ty, $name:expr, [$($f:ident),*]) => {
         $out.push(($name, "", std::mem::size_of::<$t>(), std::mem::size_of::<$t>()));
+        $out.push(($name, "@align", std::mem::align_of::<$t>(), 0));
         $( $out.push(($name, stringify!($f), std::mem::offset_of!($t, $f), {
             fn sz<T, F>(_: fn(&T) -> &F) -> usize { std::mem::size_of::<F>() }
             sz(|x: &$t| &x.$f)
@@ -267,6 +268,22 @@ fn oracle_tostr(case: &[u8], obs: &mut Obs) -> Result<(), String> {
         return Ok(());
     }
     let hs = helpers();
+    if &case[..z] == b"p_flags" {
+        let mut b = [0u8; 16];
+        b.copy_from_slice(&case[z + 1..z + 17]);
+        let v = i128::from_le_bytes(b) as u32;
+        let st = ts::p_flags_to_string(v);
+        // values above the three permission bits fall back to text containing the number
+        if v >= 8 && !(st.to_lowercase().contains(&format!("{:x}", v)) || st.contains(&format!("{}", v))) {
+            return Err(format!("p_flags_to_string({:#x}) = {:?} does not contain the number", v, st));
+        }
+        obs.label("p_flags_to_string");
+        if v >= 8 {
+            obs.nontrivial();
+        }
+        obs.describe(|| json!({"helper": "p_flags_to_string", "arg": v, "to_string": st}));
+        return Ok(());
+    }
     let Some(hi) = hs.iter().position(|(n, _)| n.as_bytes() == &case[..z]) else { return Ok(()) };
     let mut b = [0u8; 16];
     b.copy_from_slice(&case[z + 1..z + 17]);
@@ -355,6 +372,11 @@ fn enum_tostr(shard: usize, nshards: usize, tier: Tier, emit: &mut dyn FnMut(&[u
                     }
                     // the same low word under a non-zero high word (truncating lookups)
                     if matches!(h, Helper::I64(..)) && *v >= 0 && *v <= u32::MAX as i128 {
+                        // the negated value must not be named like the positive one
+                        n += 1;
+                        if *v != 0 && n % nshards == shard && !emit_tostr(hi, -*v, emit) {
+                            return;
+                        }
                         for hw in [1i128 << 32, 2i128 << 32, 0x7fff_ffffi128 << 32, -(1i128 << 32), -(1i128 << 63)] {
                             n += 1;
                             if n % nshards == shard && !emit_tostr(hi, (*v + hw) as i64 as i128, emit) {
@@ -376,12 +398,22 @@ fn enum_tostr(shard: usize, nshards: usize, tier: Tier, emit: &mut dyn FnMut(&[u
             }
         }
     }
-    // p_flags_to_string: descriptive, total
+    // p_flags_to_string has no _to_str twin: emitted under the pseudo-helper name "p_flags"
     if shard == 0 {
-        for v in 0..4096u32 {
-            let _ = ts::p_flags_to_string(v);
+        let mut s = 0x77u64;
+        let mut args: Vec<u32> = (0..4096u32).collect();
+        args.extend([u32::MAX, 0x0ff0_0000, 0xf000_0000, 0x1000_0005, 0x0010_0001, 0xfff0_0000, 0x8000_0000]);
+        for _ in 0..2000 {
+            args.push(verif_model::choice::splitmix(&mut s) as u32);
         }
-        let _ = ts::p_flags_to_string(u32::MAX);
+        for v in args {
+            let mut c = b"p_flags".to_vec();
+            c.push(0);
+            c.extend_from_slice(&(v as i128).to_le_bytes());
+            if !emit(&c) {
+                return;
+            }
+        }
     }
 }
 
